@@ -239,8 +239,30 @@ func gatherCodec(c *Ctx) *codecFacts {
 				c.touch(f)
 				return
 			}
+			// decoder payload through a helper: v, err := H(.., off, size) where H allocates make([]byte, size),
+			// reads it at off and returns it
+			if cal := cc.StaticCallee(); cal != nil && c.P.inModule(cal) && cal.Blocks != nil {
+				if po, ps, ok := readHelperParams(cal); ok && po < len(cc.Args) && ps < len(cc.Args) {
+					if val, isVal := in.(ssa.Value); isVal && val.Referrers() != nil {
+						for _, r := range *val.Referrers() {
+							ex, ok := r.(*ssa.Extract)
+							if !ok || ex.Index != 0 {
+								continue
+							}
+							if fa, ok := sa[ssa.Value(ex)]; ok {
+								if g := codecGroup(fa.X.Type()); g != "" {
+									cf.decPay[g] = append(cf.decPay[g], payloadSeg{group: g, field: fieldVarOf(fa).Name(), lo: linOf(cc.Args[po], sym), length: linOf(cc.Args[ps], sym), fn: f, in: in})
+									c.touch(f)
+									c.touch(cal)
+								}
+							}
+						}
+					}
+					return
+				}
+			}
 			// decoder payload: X.ReadAt(buf, off) with buf = make([]byte, size) stored into a payload field
-			isRead := calleeIs(cc, pkgOS, "File", "ReadAt") || (cc.IsInvoke() && cc.Method.Name() == "ReadAt" && isRWManager(cc.Value.Type()))
+			isRead :=calleeIs(cc, pkgOS, "File", "ReadAt") || (cc.IsInvoke() && cc.Method.Name() == "ReadAt" && isRWManager(cc.Value.Type()))
 			if isRead {
 				args := argsOf(cc)
 				bufV := args[0]
